@@ -66,7 +66,7 @@ Proof. exact l4_old_statement_refuted. Qed.
 Print Assumptions c10_l4_old_shape_refuted.
 
 (* Threshold.  In every reachable state - whatever the history did, limit changes included - the admission test refuses
-   exactly when the resource has reached the limit in force (m-th admitted, (m+1)-th refused) ... *)
+   exactly when the resource has reached the limit in force (m-th accepted, (m+1)-th refused) ... *)
 Theorem c10_l4_admission : forall c evs i s,
   let g := run src_sw c evs in
   0 < g_max g -> nth_error (ss g) i = Some s -> ph s = Accepted ->
